@@ -1,10 +1,10 @@
 #!/bin/bash
-# tools/seed_round.sh <Cxx> [srcroot=/tmp/seed4]: import the two changes of a seeding agent as <Cxx>-8/-9,
+# tools/seed_round.sh <Cxx> [srcroot=/tmp/seed4] [offset=7]: import the two changes of a seeding agent as <Cxx>-(offset+1)/-(offset+2),
 # confirm them in scratch copies, run the property's own quick check against each.
 cd "$(dirname "$0")/.." || exit 2
-p=$1; src=${2:-/tmp/seed4}/$p/_out
+p=$1; src=${2:-/tmp/seed4}/$p/_out; off=${3:-7}
 for n in 1 2; do
-  id=$p-$((n+7))
+  id=$p-$((n+off))
   python3 tools/seeded.py import $src $n $id $p || exit 1
   python3 tools/seeded.py confirm $id | cut -c1-400
   python3 tools/seeded.py run $id $p 2>&1 | tail -1 | cut -c1-300
